@@ -58,17 +58,17 @@ def install(eng):
     reg(bytearray, b_bytearray)
     reg(isinstance, b_isinstance)
     reg(type, b_type)
-    reg(int, b_int)
+    reg(int, splitargs(b_int))
     reg(bool, b_bool)
     reg(str, b_str)
-    reg(float, b_float)
+    reg(float, splitargs(b_float))
     reg(tuple, b_tuple)
     reg(list, b_list)
     reg(set, b_set)
     reg(min, functools.partial(b_minmax, True))
     reg(max, functools.partial(b_minmax, False))
-    reg(abs, b_abs)
-    reg(round, b_round)
+    reg(abs, splitargs(b_abs))
+    reg(round, splitargs(b_round))
     reg(functools.partial, b_partial)
     reg(getattr, b_getattr)
     reg(hasattr, b_hasattr)
@@ -79,6 +79,26 @@ def install(eng):
 
 
 _KEEP = []
+
+
+def splitargs(impl):
+    """Fork on guarded-union arguments so the transfer function sees plain values (only feasible alternatives)."""
+    def wrapped(eng, st, args, kwargs):
+        combos = [(st, [])]
+        for a in args:
+            nxt = []
+            for s, acc in combos:
+                for s2, v in eng.split_union(a, s):
+                    nxt.append((s2, acc + [v]))
+            combos = nxt
+        out = []
+        for s, vals in combos:
+            if any(isinstance(v, VNoneT) for v in vals) and getattr(impl, "none_is_typeerror", True):
+                out.append((s, eng.raise_py(s, TypeError, "NoneType argument")))
+            else:
+                out.extend(impl(eng, s, vals, kwargs))
+        return out
+    return wrapped
 
 
 def b_unsupported(name):
@@ -280,7 +300,7 @@ def b_int(eng, st, args, kwargs):
 
 
 def b_bool(eng, st, args, kwargs):
-    return ok(st, VBool(simp(truth(args[0])))) if args else ok(st, VBool(False))
+    return ok(st, VBool(simp(truth(args[0], st)))) if args else ok(st, VBool(False))
 
 
 def b_float(eng, st, args, kwargs):
@@ -1289,7 +1309,7 @@ def comprehension(eng, n, st, kind):
                                 if isinstance(cv, Raised):
                                     c2.append((s4, cv))
                                 else:
-                                    for s5, tv in eng.fork_bool(truth(cv), s4, "comp-if"):
+                                    for s5, tv in eng.fork_bool(truth(cv, s4), s4, "comp-if"):
                                         c2.append((s5, tv))
                         conds = c2
                     for s3, keep in conds:
@@ -1358,12 +1378,16 @@ def import_value(eng, v, src: State, dst: State):
 
 
 def sf_implies(eng, n, st):
-    out = []
-    for s, vals in eng.ev_list(n.args, st):
-        if isinstance(vals, Raised):
-            raise Unsupported("implies() operand raised")
-        out.append((s, VBool(simp(z3.Implies(truth(vals[0]), truth(vals[1]))))))
-    return out
+    """implies(a, b): b is evaluated only under a (short-circuit, like `not a or b`)."""
+    from .contracts import eval_clause
+    a = eval_clause(eng, st, n.args[0])
+    sc = st.clone()
+    sc.assume(a)
+    b = eval_clause(eng, sc, n.args[1]) if smt.feasible(sc.pc) else z3.BoolVal(True)
+    for c in sc.pc:
+        if c.get_id() in sc.facts and c.get_id() not in st.facts:
+            st.fact(c)
+    return [(st, VBool(simp(z3.Implies(a, b))))]
 
 
 def sf_iff(eng, n, st):
@@ -1371,7 +1395,7 @@ def sf_iff(eng, n, st):
     for s, vals in eng.ev_list(n.args, st):
         if isinstance(vals, Raised):
             raise Unsupported("iff() operand raised")
-        out.append((s, VBool(simp(truth(vals[0]) == truth(vals[1])))))
+        out.append((s, VBool(simp(truth(vals[0], s) == truth(vals[1], s)))))
     return out
 
 
@@ -1393,7 +1417,7 @@ def sf_assume(eng, n, st):
     eng.assumptions_used.add("ASSUME:" + ast.unparse(n.args[0])[:80])
     out = []
     for s, v in eng.ev(n.args[0], st):
-        s.assume(truth(v))
+        s.assume(truth(v, s))
         out.append((s, VNone))
     return out
 
@@ -1404,7 +1428,7 @@ def ghost_assert(eng, n, st):
     for s, v in eng.ev(n.test, st):
         if isinstance(v, Raised):
             raise Unsupported("assert expression raised")
-        g = truth(v)
+        g = truth(v, s)
         eng.contract_mod.oblige(eng, s, g, "assert " + ast.unparse(n.test)[:100], kind="auxiliary")
         s.assume(g)
         out.append((s, None))
